@@ -395,6 +395,9 @@ package fiber
 //@   atcall (*routeParser).parseRoute: folded-iff-path-folded: called(@utils.ToLowerBytes) <==> called(@utils.ToLower)
 //@   atcall @utils.TrimRight: only-slashes-cut: cutset == '/'
 //@   atcall (*routeParser).getMatch: one-path-view: arg1 == arg2 && !arg4
+// as in Route.match: the parser decides parameterised patterns only; a pattern without parameters is compared as
+// text (the parser would accept a missing optional trailing slash that dispatch does not)
+//@   atcall (*routeParser).getMatch: only-for-parameterised-patterns: len(parser.params) > 0
 // the path handed to the matcher is the request path normalised as the request context normalises it: percent-decoded
 // iff the decoding step ran, then lower-cased iff the folding step ran, then without trailing slashes or unchanged
 //@   atcall (*routeParser).getMatch: path-normalised-like-a-request-path: sameOrTrimmed(ite(called(@utils.ToLower), lower(rpmDecoded(old(path))), rpmDecoded(old(path))), arg1)
